@@ -928,8 +928,10 @@ fn main() {
         let layer = layer_of(case);
         exercise(&mut run, case, &layer);
     }
-    // ---- Metric::from directly: all values 0, one positive among zeros, a single pair of value 0
-    for (name, vals) in [("all-zero", vec![0f32; 6]), ("one-positive", vec![0.0, 0.0, 2.5, 0.0, 0.0, 0.0]), ("single-zero-pair", vec![0f32])] {
+    // ---- Metric::from directly: all values 0, one positive among zeros, a single pair of value 0, all values tiny
+    for (name, vals) in [("all-zero", vec![0f32; 6]), ("one-positive", vec![0.0, 0.0, 2.5, 0.0, 0.0, 0.0]), ("single-zero-pair", vec![0f32]),
+        // near-duplicate centroids: every distance positive but far below f32::EPSILON; the maximum is still scaled to one
+        ("all-tiny", vec![1e-9, 2e-9, 3e-9, 1.5e-9, 2.5e-9, 0.5e-9]), ("all-subnormal-scale", vec![3e-38, 1e-38, 2e-38, 2.5e-38, 1.5e-38, 0.7e-38]), ("single-tiny-pair", vec![4e-12f32])] {
         let k = if vals.len() == 1 { 2 } else { 4 };
         let mut map = BTreeMap::new();
         let mut it = vals.iter();
